@@ -202,3 +202,6 @@ def _record_with_genes(_cds_features):
 
 REAL["GeneOnOneStretch"] = _gene_location_only
 REAL["RecordWithGenes"] = _record_with_genes
+REAL["GeneAnywhere"] = _gene_location_only
+REAL["RecordWithAnyGenes"] = _record_with_genes
+REAL["CL2"] = _cl
